@@ -15,6 +15,23 @@ pub enum Step {
     Inbound(u8),
     /// Issue an operation, give it this many `d 3` decisions, cancel it.
     Partial(String, usize),
+    /// Deliver everything owed, PUBACK / PUBREC in their long form (reason and properties).
+    OwedLong,
+}
+
+fn deliver_long(d: &mut Drv) {
+    let props = super::wire::enc_props(&[crate::parse::PropSpec::Str(0x1f, "ok".into())]);
+    let mut bytes = Vec::new();
+    for mut o in d.broker.deliver_all() {
+        if o.kind == "puback" || o.kind == "pubrec" {
+            o.bytes = super::wire::ack(o.bytes[0], o.pid, Some(0), Some(&props));
+        }
+        *d.stats.broker.entry(o.kind.to_string()).or_insert(0) += 1;
+        bytes.extend(o.bytes);
+    }
+    if !bytes.is_empty() {
+        d.rx(&bytes);
+    }
 }
 
 fn partial(d: &mut Drv, line: &str, n: usize) {
@@ -38,6 +55,9 @@ pub enum Mode {
     /// `d 250` decisions; cancel at this await index, `drop`, then a resumed reconnect on which
     /// the broker retransmits what the client has not acknowledged (DUP) before any PUBREL.
     CancelResume(usize),
+    /// Byte-granular: every decision is `d n`; cancel at this await index of that run, then
+    /// `poll` and more `d n` decisions for a while, then a `go` drain.
+    BytewiseCancel(u8, usize),
 }
 
 pub(super) fn setup(rng: Rng, rx: usize, tx: usize) -> Drv {
@@ -53,6 +73,7 @@ pub fn run_steps(d: &mut Drv, steps: &[Step], mode: &Mode) -> usize {
     for step in steps {
         match step {
             Step::Owed => d.deliver_all(),
+            Step::OwedLong => deliver_long(d),
             Step::Inbound(qos) => {
                 if let Some(o) = d.broker.inbound(&mut d.rng, *qos, None, None) {
                     d.send(&o);
@@ -62,6 +83,27 @@ pub fn run_steps(d: &mut Drv, steps: &[Step], mode: &Mode) -> usize {
             Step::Op(line) => {
                 d.x(line);
                 match mode {
+                    Mode::BytewiseCancel(n, at) => {
+                        while d.suspended() {
+                            if k == *at {
+                                d.x("cancel");
+                                d.x("poll");
+                                for _ in 0..12 {
+                                    if !d.suspended() || d.starved {
+                                        break;
+                                    }
+                                    d.x(&format!("d {n}"));
+                                }
+                                d.drain();
+                                return k;
+                            }
+                            d.x(&format!("d {n}"));
+                            k += 1;
+                            if d.starved {
+                                break;
+                            }
+                        }
+                    }
                     Mode::Go => d.go(),
                     Mode::All(n) => {
                         while d.suspended() {
@@ -146,6 +188,8 @@ pub(super) fn scenarios(rng: &mut Rng) -> Vec<(&'static str, Vec<Step>)> {
         ("pub1+pub2", vec![publish(1), publish(2), Step::Owed, poll(), Step::Owed, poll()]),
         ("sub+in1", vec![sub, Step::Owed, Step::Inbound(1), poll(), poll(), poll()]),
         ("pub2+in2", vec![publish(2), Step::Inbound(2), Step::Owed, poll(), poll(), poll(), Step::Owed, poll()]),
+        ("pub1-longack", vec![publish(1), Step::OwedLong, poll()]),
+        ("pub2-longack", vec![publish(2), Step::OwedLong, poll(), Step::Owed, poll()]),
         // An inbound publish read by the suspended poll while the write side is stalled.
         ("in1-stalled", vec![poll(), Step::Inbound(1), poll(), poll()]),
         ("in2-stalled", vec![poll(), Step::Inbound(2), poll(), poll(), Step::Owed, poll(), poll()]),
@@ -157,6 +201,7 @@ pub fn sched(out: &mut Out, count: u64) {
     let list = scenarios(&mut out.rng(u64::MAX));
     let mut priority: Vec<(usize, Mode)> = Vec::new();
     let mut rest: Vec<(usize, Mode)> = Vec::new();
+    let mut bytewise: Vec<(usize, Mode)> = Vec::new();
     for (s, (_, steps)) in list.iter().enumerate() {
         let mut dry = setup(out.rng(s as u64), 128, 256);
         let n = run_steps(&mut dry, steps, &Mode::All(250));
@@ -170,6 +215,14 @@ pub fn sched(out: &mut Out, count: u64) {
             // Every await index after the packet was read (the first poll starves after 1).
             for i in 4..n {
                 priority.push((s, Mode::CancelResume(i)));
+            }
+        }
+        for n in [1u8, 2] {
+            let mut dry = setup(out.rng(s as u64), 128, 256);
+            let total = run_steps(&mut dry, steps, &Mode::All(n));
+            drop(dry);
+            for i in 0..total {
+                bytewise.push((s, Mode::BytewiseCancel(n, i)));
             }
         }
         rest.push((s, Mode::All(2)));
@@ -187,11 +240,17 @@ pub fn sched(out: &mut Out, count: u64) {
             }
         }
     }
+    // Budget: whole-window schedules 50 %, byte-granular cancels 35 %, multi-cancels the rest.
     let count = count as usize;
-    let mut chosen: Vec<(usize, Mode)> =
-        stride(priority.len(), count).into_iter().map(|i| priority[i].clone()).collect();
-    let left = count.saturating_sub(chosen.len());
-    chosen.extend(stride(rest.len(), left).into_iter().map(|i| rest[i].clone()));
+    let a = priority.len().min(count * 50 / 100);
+    let b = bytewise.len().min(count * 35 / 100);
+    let c = rest.len().min(count - a - b);
+    let a = (count - b - c).min(priority.len());
+    let b = (count - a - c).min(bytewise.len());
+    let mut chosen: Vec<(usize, Mode)> = Vec::new();
+    for (pool, n) in [(&priority, a), (&bytewise, b), (&rest, c)] {
+        chosen.extend(stride(pool.len(), n).into_iter().map(|i| pool[i].clone()));
+    }
     for (idx, (s, mode)) in chosen.iter().enumerate() {
         let (name, steps) = &list[*s];
         let mut d = setup(out.rng(*s as u64), 128, 256);
@@ -200,6 +259,7 @@ pub fn sched(out: &mut Out, count: u64) {
             Mode::Go => "mode=go".to_string(),
             Mode::All(n) => format!("mode=all-d{n}"),
             Mode::CancelResume(i) => format!("mode=cancel-resume at={i}"),
+            Mode::BytewiseCancel(n, i) => format!("mode=bytewise-cancel gran=d{n} at={i}"),
             Mode::CancelAt(p) => format!(
                 "mode=cancel at={}",
                 p.iter().map(|v| v.to_string()).collect::<Vec<_>>().join(",")
@@ -266,6 +326,7 @@ fn twin_prefix(rng: Rng, prefix: &[Step]) -> Drv {
     for step in prefix {
         match step {
             Step::Owed => d.deliver_all(),
+            Step::OwedLong => deliver_long(&mut d),
             Step::Inbound(q) => {
                 if let Some(o) = d.broker.inbound(&mut d.rng, *q, None, None) {
                     d.send(&o);
@@ -286,18 +347,32 @@ pub fn twin_cancel(out: &mut Out, count: u64) {
     for round in 0u64.. {
         let ops = twin_ops(&mut out.rng(round));
         let mut progressed = false;
-        for (o, op) in ops.iter().enumerate() {
+        // Whole-window decisions for every operation; byte-granular ones (`d 1`, `d 2`) for the
+        // operations that consume inbound bytes or write owed acknowledgements, so that the
+        // cancel falls in the middle of a packet body.
+        let mut plan: Vec<(usize, u8)> = (0..ops.len()).map(|o| (o, 250)).collect();
+        for gran in [1u8, 2] {
+            for (o, op) in ops.iter().enumerate() {
+                if ["poll", "recv", "drive"].iter().any(|p| op.name.starts_with(p)) {
+                    plan.push((o, gran));
+                }
+            }
+        }
+        for (o, gran) in plan {
+            let op = &ops[o];
             let key = round * 1000 + o as u64;
             // Dry run: how many decisions until the operation completes.
             let mut dry = twin_prefix(out.rng(key), &op.prefix);
             dry.x(&op.op);
             let mut n = 0;
-            while dry.suspended() && !dry.starved && n < 64 {
-                dry.x("d 250");
+            while dry.suspended() && !dry.starved && n < 200 {
+                dry.x(&format!("d {gran}"));
                 n += 1;
             }
             drop(dry);
-            for k in 0..n {
+            // All cancel points for whole windows, at most 8 evenly spaced byte-granular ones.
+            let points = if gran == 250 { (0..n).collect() } else { stride(n, 8) };
+            for k in points {
                 if twin >= count {
                     return;
                 }
@@ -308,7 +383,7 @@ pub fn twin_cancel(out: &mut Out, count: u64) {
                 let before = b.interp().verif_state().retained.len();
                 b.x(&op.op);
                 for _ in 0..k {
-                    b.x("d 250");
+                    b.x(&format!("d {gran}"));
                 }
                 b.x("cancel");
                 let enqueued = (b.interp().verif_state().retained.len() > before) as u8;
@@ -319,7 +394,11 @@ pub fn twin_cancel(out: &mut Out, count: u64) {
                 a.go();
                 a.drain();
                 let tags = |role: &str| {
-                    format!("twin={name} role={role} enqueued={enqueued} op={} k={k}", op.name)
+                    format!(
+                        "twin={name} role={role} enqueued={enqueued} op={} k={k} gran={}",
+                        op.name,
+                        if gran == 250 { "window".to_string() } else { format!("d{gran}") }
+                    )
                 };
                 out.emit(twin, ".a", &tags("a"), &a);
                 drop(a);
